@@ -3,7 +3,7 @@
 ./setup.sh >/dev/null 2>&1
 for s in $(seq ${1:-1} ${2:-6}); do
   for id in C01 C02 C03 C04 C05 C06 C07 C08 C09 C10 C11 C12 C13 C14 C15 C16 C17 C18 C19 C20; do
-    out=$(PYTHONHASHSEED=${3:-0} ./check $id --tier quick --seed $s 2>&1); rc=$?
+    out=$(./check $id --tier quick --seed $s 2>&1); rc=$?   # (each shard picks its own hash seed)
     if [ $rc -ne 0 ]; then echo "== $id seed=$s exit=$rc"; echo "$out" | grep -E "violated \[|INCONCLUSIVE" | head -4; fi
   done
   echo "seed $s done"
